@@ -129,6 +129,8 @@ func runOps(x *SeqCtx, after func(i int, op Op, res Res) *Violation) *Violation 
 			x.Ex = NewExec(st.FS, x.S)
 			res = Res{Class: "ok"}
 			x.Stats.Add("restarts_"+op.K, 1)
+		case "archive":
+			res = doArchive(x.St, op)
 		default:
 			res = x.Ex.Do(op)
 		}
